@@ -83,6 +83,10 @@ func runC11(s *core.Sim, tier string) RunInfo {
 	var sB, sC header.Subscription[*H]
 	simhdr.Cfg.DecoderPanics = true
 	lateVerifier := s.Tape.Coin("late-verifier", 1, 6)
+	restartB := s.Tape.Coin("subscriber-restarted", 1, 4)
+	if restartB {
+		s.Probe("same-subscriber-restarted")
+	}
 	// configuration knob: the Subscriber under test with or without its metrics
 	withMetrics := s.Tape.Coin("subscriber-metrics", 1, 2)
 	if withMetrics {
@@ -133,6 +137,16 @@ func runC11(s *core.Sim, tier string) RunInfo {
 		}
 		if setupErr = subB.Start(ctx); setupErr != nil {
 			return
+		}
+		if restartB {
+			// the Subscriber under test has had a first life: started, stopped (nobody subscribed),
+			// started again - the same object
+			if setupErr = subB.Stop(ctx); setupErr != nil {
+				return
+			}
+			if setupErr = subB.Start(ctx); setupErr != nil {
+				return
+			}
 		}
 		if setupErr = subC.Start(ctx); setupErr != nil {
 			return
